@@ -129,7 +129,22 @@ class Interp(OpsMixin, BuiltinsMixin):
             return os.path.relpath(module.path, self.repo_root)
         return module.name
 
+    def gen_advance(self, g, newpos, node=None, frame=None):
+        """consume items of a one-shot iterator (journalled; an iterator created at import time is shared state)"""
+        if newpos == g.pos:
+            return
+        self.journal.append(("genpos", g, None, g.pos))
+        if id(g) in self.static_ids and (not self.loading or self.exploring):
+            self.event("static-mutation", obj=g, origin=self.static_ids[id(g)], where=frame.where(node) if frame else None, node=node,
+                       method="consume")
+        g.pos = newpos
+
     def mark_static(self, obj, origin):
+        if isinstance(obj, GenVal):
+            if id(obj) not in self.static_ids:
+                self.static_ids[id(obj)] = origin
+                self._keep.append(obj)
+            return
         if isinstance(obj, (dict, list, set, Buf, EnumVal)):
             if id(obj) not in self.static_ids:
                 self.static_ids[id(obj)] = origin
@@ -173,6 +188,8 @@ class Interp(OpsMixin, BuiltinsMixin):
                 obj[:] = old
             elif kind == "buf":
                 obj.cells, obj.length = old
+            elif kind == "genpos":
+                obj.pos = old
         self.journal = []
 
     def explore(self, thunk, max_paths=512):
@@ -407,7 +424,7 @@ class Interp(OpsMixin, BuiltinsMixin):
                     if f is not None:
                         f.cls = cls
                         f.qualname = "%s:%s.%s" % (frame.module.name, cls.name, f.name)
-            if isinstance(v, (dict, list, set)):
+            if isinstance(v, (dict, list, set, GenVal, Buf)):
                 self.origin_of[id(v)] = "%s.%s" % (cls.qualname, k)
                 self.mark_static(v, "%s.%s" % (cls.qualname, k))
         if cls.metaclass is not None and isinstance(cls.metaclass, ClassVal):
@@ -539,7 +556,7 @@ class Interp(OpsMixin, BuiltinsMixin):
                 self.journal.append(("attr", env, name, env.get(name, _ABSENT)))
                 self.event("global-store", module=frame.module.name, name=name, where=frame.where())
             env[name] = v
-            if self.loading and isinstance(v, (dict, list, set, EnumVal)):
+            if self.loading and isinstance(v, (dict, list, set, EnumVal, GenVal, Buf)):
                 self.origin_of.setdefault(id(v), "%s:%s" % (frame.module.name, name))
                 self.mark_static(v, "%s:%s" % (frame.module.name, name))
         else:
